@@ -95,5 +95,23 @@ func (e *Effects) fallibleCall(cc *ssa.CallCommon) bool {
 	if sc := cc.StaticCallee(); sc != nil && fnInModule(sc) {
 		return e.Effectful[sc]
 	}
+	// a call through a function value (a retry helper given `func() error`): fallible when a function that can
+	// arrive there is
+	if !cc.IsInvoke() && cc.StaticCallee() == nil {
+		if _, isBuiltin := cc.Value.(*ssa.Builtin); !isBuiltin {
+			for _, l := range e.c.originLeaves(cc.Value, nil) {
+				switch y := l.(type) {
+				case *ssa.MakeClosure:
+					if fn, ok := y.Fn.(*ssa.Function); ok && e.Effectful[fn] {
+						return true
+					}
+				case *ssa.Function:
+					if e.Effectful[y] {
+						return true
+					}
+				}
+			}
+		}
+	}
 	return false
 }
